@@ -112,6 +112,7 @@ inline void createField(Cfg* c) {
   if (c->rangeId > 0) rows[0]["range"] = RANGES[c->rangeId];
   const DataField* f = nullptr;
   string err;
+  errno = ERANGE;  // definitions are loaded after the same worst-case history as values are encoded (see encode())
   result_t r = DataField::create(false, false, false, MAX_LEN, g_templates, &rows, &err, &f);
   c->createRc = static_cast<int>(r);
   c->createErr = err;
